@@ -49,7 +49,7 @@ def correspondence(rng, tier):
                     '30% of the arrays hold an element on which scalar operations raise or branch (None, 0, negative, nan, inf); the generator returns to '
                     'objects whose dispatched ufunc raised, to views, and to dispatchers of broadcasting ufuncs; non-trivial = a read of '
                     'the dispatcher after a broadcasting op, or an operation on a non-C-contiguous operand, or an operation on an object '
-                    'whose dispatched binary ufunc raised; 60% of the plain-ndarray operands are sequences of pure numbers of mixed kinds (bool, int, huge int, float, complex, numpy scalars) passed as nested list / tuple / range; plus direct NumPy-vs-model broadcasting cases; plus result()-centred histories: ' + q['rule'],
+                    'whose dispatched binary ufunc raised; 60% of the plain-ndarray operands are sequences of pure numbers of mixed kinds (bool, int, huge int, float, complex, numpy scalars) passed as nested list / tuple / range; 25% of the arrays (KU and KN, dispatchers included) are built from NUMERIC ndarrays (int64, float64, float32, complex128, bool: elements are NumPy scalars) and 30% of the scalars are of every plain kind (bool, int, float, complex, numpy scalars); a fixed directed stream (comparisons / maximum / minimum / isnan.. on NaN and inf; mixed-kind list and tuple operands) runs in every tier; plus direct NumPy-vs-model broadcasting cases; plus result()-centred histories: ' + q['rule'],
     })
     return r
 
@@ -62,6 +62,8 @@ def _ideal(op, heap, scalars, labels):
     def opd(o):
         if o[0] == 'A':
             a = heap[o[1]]; return np.shape(a), cells_of(a)
+        if op['op'] == 'bin':        # np.full(shape, scalar, dtype=object) stores a NumPy scalar as the Python number
+            return (), [arrays.promote_scalar(scalars[o[1]])]
         if op['op'] == 'zip':        # sensitivity / u_component hand np.asarray(scalar) to the elements (np.float64(2.5) for 2.5)
             return (), list(np.asarray(scalars[o[1]]).flat)
         return (), [scalars[o[1]]]
